@@ -358,9 +358,13 @@ PROPS = {
                       "Go race detector (happens-before) on the schedules that actually occur"],
         assumptions=["argument slices and objects shared between goroutines are only read by the callers"],
         claim="Theorems (Props/C19.lean): for any machine whose operations leave the global store unchanged, every schedule returns "
-              "for each call what the call returns alone (readonly_interleaving); the regenerated table of package-level variables "
-              "is exactly [transform.alt25] and the regenerated table of non-read uses of package-level variables is empty "
-              "(globals_table, repo_readonly: decide on generated data, so a new global or a new write site breaks the proof). "
+              "for each call what the call returns alone (readonly_interleaving); every package-level variable in the regenerated table is a "
+              "value (scalar, string, array of those, errors.New value) or a table (slice/map of scalars that is only indexed, "
+              "ranged over or measured), none a pointer, struct, interface, channel or sync type, and the regenerated table of "
+              "non-read uses of package-level variables (assignment also through index/field/pointer or from another package, "
+              "inc/dec, address taken, method call, delete/clear/copy, any other use of a table) is empty "
+              "(globals_immutable, repo_readonly: decide on generated data, so a cache, pool, scratch buffer or a new write "
+              "site breaks the proof; a new read-only constant does not). "
               "Search: every generated case of 25 op families (all operations except the corridor, which is not deterministic: D9) is executed again on 16 goroutines, each in its own order, on "
               "shared argument slices, under the Go race detector, and compared with its sequential result.",
         note="proof over a syntactic fact model of /repo (regenerated, not sampled); the race detector explores schedules, it does "
